@@ -27,6 +27,19 @@ JacOnCurve(G, j) == LET x == JX(G, j)  y == JY(G, j)  z == JZ(G, j)
 JacOK(G, j) == JacCanon(G, j) /\ JacOnCurve(G, j)
 Dl(G, kb) == GMul(G, FromBE(kb), GGen(G))                       \* textbook k * generator
 Sampled(e, m) == e.seq % m = 0
+\* ---------------------------------------------------------------- drift check of the Level-B transcription (coverage, never a verdict)
+\* JacAlgo (the transcription model-checked exhaustively on tiny curves by ImplJacobian / ImplMachine) evaluated at SM9 size on
+\* the logged operands must reproduce the code's EXACT output triple - the representative, not only the point.
+JA1 == INSTANCE JacAlgo WITH FAdd <- FQ!FAdd, FSub <- FQ!FSub, FMul <- FQ!FMul, FInv <- FQ!FInv, FZero <- <<>>, FOne <- <<1>>
+JA2 == INSTANCE JacAlgo WITH FAdd <- E2!Add, FSub <- E2!Sub, FMul <- E2!Mul, FInv <- E2!Inv, FZero <- E2!Zero, FOne <- E2!One
+Trip(G, j) == << JX(G, j), JY(G, j), JZ(G, j) >>
+AlgoOut(e) == LET G == e.G  A == Trip(G, e.a)
+              IN CASE e.op = "g.add" -> IF G = "G1" THEN JA1!AddJ(A, Trip(G, e.b)) ELSE JA2!AddJ(A, Trip(G, e.b))
+                   [] e.op = "g.sub" -> IF G = "G1" THEN JA1!SubJ(A, Trip(G, e.b)) ELSE JA2!SubJ(A, Trip(G, e.b))
+                   [] e.op = "g.neg" -> IF G = "G1" THEN JA1!NegJ(A) ELSE JA2!NegJ(A)
+                   [] e.op \in {"g.mul", "g.rmul"} -> IF G = "G1" THEN JA1!MulJ(A, BBitsMSB(FromBE(e.k))) ELSE JA2!MulJ(A, BBitsMSB(FromBE(e.k)))
+DriftOps == {"g.add", "g.sub", "g.neg", "g.mul", "g.rmul"}
+DriftCls(e) == IF e.op \in DriftOps THEN { IF AlgoOut(e) = Trip(e.G, e.out) THEN "drift.same" ELSE "drift.diff" } ELSE {}
 \* ---------------------------------------------------------------- C04
 ChkGAddSub(e) ==
     /\ JacOK(e.G, e.a) /\ JacOK(e.G, e.b) /\ JacOK(e.G, e.out)
